@@ -575,6 +575,8 @@ class Project:
                 return d_
             if isinstance(f, Ext) and f.name in ("tuple", "list", "sorted", "set", "frozenset") and len(node.args) == 1:
                 inner = self.ev(m, node.args[0], env)
+                if isinstance(inner, dict):
+                    inner = list(inner.keys())  # iterating a dict yields its keys
                 if isinstance(inner, (list, tuple)):
                     return list(inner) if f.name != "tuple" else tuple(inner)
             args = []
